@@ -432,4 +432,467 @@ theorem emitAlt_jumps (cfg : Cfg) : ∀ (cs : List GoNode) (a fin : Nat) (tb : T
 end
 
 
+/-! ### the bool-only program -/
+
+theorem mapCapnum_quick (caps : Option (List (Int × Int))) (q : Option (List Bool)) (g : Int) :
+    mapCapnum ⟨caps, q⟩ g = mapCapnum ⟨caps, none⟩ g := rfl
+
+theorem emitCapture_main (caps : Option (List (Int × Int))) (m n : Int) : emitCapture ⟨caps, none⟩ m n = true := rfl
+
+theorem stripList_isEmpty (cfg : Cfg) (cs : List GoNode) : (stripList cfg cs).isEmpty = cs.isEmpty := by
+  cases cs <;> simp [stripList]
+
+mutual
+theorem size_strip (caps : Option (List (Int × Int))) (q : List Bool) : ∀ (n : GoNode),
+    size ⟨caps, none⟩ (stripTree ⟨caps, some q⟩ n) = size ⟨caps, some q⟩ n
+  | .empty => by simp [stripTree, size]
+  | .bare t => by simp [stripTree, size]
+  | .char t rtl ci ch => by simp [stripTree, size]
+  | .set rtl ci s => by simp [stripTree, size]
+  | .multi rtl ci s => by simp [stripTree, size]
+  | .ref rtl ci m => by simp [stripTree, size]
+  | .charloop t rtl ci ch m n => by simp [stripTree, size]
+  | .setloop t rtl ci s m n => by simp [stripTree, size]
+  | .concat cs => by simp only [stripTree, size]; exact sizeList_strip caps q cs
+  | .alt cs => by simp only [stripTree, size]; exact sizeAlt_strip caps q cs
+  | .loop lzy m n c => by simp [stripTree, size, size_strip caps q c]
+  | .capture m n c => by
+    simp only [stripTree]
+    split <;> simp [size, size_strip caps q c, emitCapture_main, *]
+  | .group c => by simp [stripTree, size, size_strip caps q c]
+  | .poslook c => by simp [stripTree, size, size_strip caps q c]
+  | .neglook c => by simp [stripTree, size, size_strip caps q c]
+  | .atomic c => by simp [stripTree, size, size_strip caps q c]
+  | .backrefcond1 m y => by simp [stripTree, size, size_strip caps q y]
+  | .backrefcond2 m y n => by simp [stripTree, size, size_strip caps q y, size_strip caps q n]
+  | .exprcond2 c y => by simp [stripTree, size, size_strip caps q c, size_strip caps q y]
+  | .exprcond3 c y n => by simp [stripTree, size, size_strip caps q c, size_strip caps q y, size_strip caps q n]
+  | .other t => by simp [stripTree, size]
+theorem sizeList_strip (caps : Option (List (Int × Int))) (q : List Bool) : ∀ (cs : List GoNode),
+    sizeList ⟨caps, none⟩ (stripList ⟨caps, some q⟩ cs) = sizeList ⟨caps, some q⟩ cs
+  | [] => by simp [stripList, sizeList]
+  | c :: cs => by simp [stripList, sizeList, size_strip caps q c, sizeList_strip caps q cs]
+theorem sizeAlt_strip (caps : Option (List (Int × Int))) (q : List Bool) : ∀ (cs : List GoNode),
+    sizeAlt ⟨caps, none⟩ (stripList ⟨caps, some q⟩ cs) = sizeAlt ⟨caps, some q⟩ cs
+  | [] => by simp [stripList, sizeAlt]
+  | c :: cs => by
+    simp [stripList, sizeAlt, size_strip caps q c, sizeAlt_strip caps q cs, stripList_isEmpty]
+end
+
+mutual
+theorem emitNode_strip (caps : Option (List (Int × Int))) (q : List Bool) : ∀ (n : GoNode) (a : Nat) (tb : Tables),
+    emitNode ⟨caps, none⟩ a tb (stripTree ⟨caps, some q⟩ n) = emitNode ⟨caps, some q⟩ a tb n
+  | .empty, a, tb => by simp [stripTree, emitNode]
+  | .bare t, a, tb => by simp [stripTree, emitNode]
+  | .char t rtl ci ch, a, tb => by simp [stripTree, emitNode]
+  | .set rtl ci s, a, tb => by simp [stripTree, emitNode]
+  | .multi rtl ci s, a, tb => by simp [stripTree, emitNode]
+  | .ref rtl ci m, a, tb => by simp [stripTree, emitNode, mapCapnum_quick caps (some q)]
+  | .charloop t rtl ci ch m n, a, tb => by simp [stripTree, emitNode]
+  | .setloop t rtl ci s m n, a, tb => by simp [stripTree, emitNode]
+  | .concat cs, a, tb => by simp only [stripTree, emitNode]; exact emitList_strip caps q cs a tb
+  | .alt cs, a, tb => by
+    simp only [stripTree, emitNode, sizeAlt_strip]; exact emitAlt_strip caps q cs a _ tb
+  | .loop lzy m n c, a, tb => by simp [stripTree, emitNode, emitNode_strip caps q c, size_strip]
+  | .capture m n c, a, tb => by
+    simp only [stripTree]
+    split <;> simp [emitNode, emitNode_strip caps q c, emitCapture_main, mapCapnum_quick caps (some q), *]
+  | .group c, a, tb => by simp [stripTree, emitNode, emitNode_strip caps q c]
+  | .poslook c, a, tb => by simp [stripTree, emitNode, emitNode_strip caps q c]
+  | .neglook c, a, tb => by simp [stripTree, emitNode, emitNode_strip caps q c, size_strip]
+  | .atomic c, a, tb => by simp [stripTree, emitNode, emitNode_strip caps q c]
+  | .backrefcond1 m y, a, tb => by
+    simp [stripTree, emitNode, emitNode_strip caps q y, size_strip, mapCapnum_quick caps (some q)]
+  | .backrefcond2 m y n, a, tb => by
+    simp [stripTree, emitNode, emitNode_strip caps q y, emitNode_strip caps q n, size_strip, mapCapnum_quick caps (some q)]
+  | .exprcond2 c y, a, tb => by simp [stripTree, emitNode, emitNode_strip caps q c, emitNode_strip caps q y, size_strip]
+  | .exprcond3 c y n, a, tb => by
+    simp [stripTree, emitNode, emitNode_strip caps q c, emitNode_strip caps q y, emitNode_strip caps q n, size_strip]
+  | .other t, a, tb => by simp [stripTree, emitNode]
+theorem emitList_strip (caps : Option (List (Int × Int))) (q : List Bool) : ∀ (cs : List GoNode) (a : Nat) (tb : Tables),
+    emitList ⟨caps, none⟩ a tb (stripList ⟨caps, some q⟩ cs) = emitList ⟨caps, some q⟩ a tb cs
+  | [], a, tb => by simp [stripList, emitList]
+  | c :: cs, a, tb => by simp [stripList, emitList, emitNode_strip caps q c, emitList_strip caps q cs, size_strip]
+theorem emitAlt_strip (caps : Option (List (Int × Int))) (q : List Bool) : ∀ (cs : List GoNode) (a fin : Nat) (tb : Tables),
+    emitAlt ⟨caps, none⟩ a fin tb (stripList ⟨caps, some q⟩ cs) = emitAlt ⟨caps, some q⟩ a fin tb cs
+  | [], a, fin, tb => by simp [stripList, emitAlt]
+  | c :: cs, a, fin, tb => by
+    simp [stripList, emitAlt, emitNode_strip caps q c, emitAlt_strip caps q cs, size_strip, stripList_isEmpty]
+end
+
+
+/-! ### operands and arities -/
+
+/-- the operand count of the instruction is the one `opcodeSize` gives its opcode -/
+def Instr.arityOk (i : Instr) : Bool := Code.sizeOf? i.opcode == some (1 + i.args.length)
+
+/-- opcodes with a table or capture operand -/
+def specialOps : List Nat := [opMulti] ++ setOps ++ [opRef, opTestref, opCapturemark]
+
+/-- arity and table / capture operands of one instruction (`Writer.instrOk` without the jump clause) -/
+def Instr.localOk (ns nsets capsize : Nat) (i : Instr) : Bool :=
+  i.arityOk &&
+  (if i.opcode == opMulti then inRange i.args[0]? ns else true) &&
+  (if setOps.contains i.opcode then inRange i.args[0]? nsets else true) &&
+  (if i.opcode == opRef || i.opcode == opTestref then inRange i.args[0]? capsize else true) &&
+  (if i.opcode == opCapturemark then
+      (if i.args[1]? == some (-1) then inRange i.args[0]? capsize
+       else (i.args[0]? == some (-1) || inRange i.args[0]? capsize) && inRange i.args[1]? capsize)
+    else true)
+
+def AllLocal (ns nsets capsize : Nat) (c : Code) : Prop := ∀ i ∈ c, i.localOk ns nsets capsize = true
+
+theorem AllLocal_nil (ns nsets cs : Nat) : AllLocal ns nsets cs [] := by intro i hi; cases hi
+theorem AllLocal_append {ns nsets cs : Nat} {x y : Code} :
+    AllLocal ns nsets cs (x ++ y) ↔ AllLocal ns nsets cs x ∧ AllLocal ns nsets cs y := by
+  simp only [AllLocal, List.mem_append]
+  constructor
+  · intro h; exact ⟨fun i hi => h i (Or.inl hi), fun i hi => h i (Or.inr hi)⟩
+  · rintro ⟨h1, h2⟩ i (hi | hi)
+    · exact h1 i hi
+    · exact h2 i hi
+theorem AllLocal_cons {ns nsets cs : Nat} {i : Instr} {r : Code} :
+    AllLocal ns nsets cs (i :: r) ↔ i.localOk ns nsets cs = true ∧ AllLocal ns nsets cs r := by
+  simp [AllLocal]
+
+theorem inRange_mono {x : Option Int} {n n' : Nat} (h : n ≤ n') (hx : inRange x n = true) : inRange x n' = true := by
+  cases x with
+  | none => simp [inRange] at hx
+  | some v => simp only [inRange, Bool.and_eq_true, decide_eq_true_eq] at hx ⊢; omega
+
+theorem localOk_mono {ns ns' nsets nsets' cs : Nat} {i : Instr} (h1 : ns ≤ ns') (h2 : nsets ≤ nsets')
+    (h : i.localOk ns nsets cs = true) : i.localOk ns' nsets' cs = true := by
+  simp only [Instr.localOk, Bool.and_eq_true] at h ⊢
+  obtain ⟨⟨⟨⟨ha, hm⟩, hs⟩, hr⟩, hc⟩ := h
+  refine ⟨⟨⟨⟨ha, ?_⟩, ?_⟩, hr⟩, hc⟩
+  · split
+    · rename_i hh; rw [if_pos hh] at hm; exact inRange_mono h1 hm
+    · rfl
+  · split
+    · rename_i hh; rw [if_pos hh] at hs; exact inRange_mono h2 hs
+    · rfl
+
+theorem AllLocal_mono {ns ns' nsets nsets' cs : Nat} {c : Code} (h1 : ns ≤ ns') (h2 : nsets ≤ nsets')
+    (h : AllLocal ns nsets cs c) : AllLocal ns' nsets' cs c := fun i hi => localOk_mono h1 h2 (h i hi)
+
+/-- an instruction without table or capture operands -/
+theorem localOk_plain {ns nsets cs : Nat} {i : Instr} (ha : i.arityOk = true) (hs : specialOps.contains i.opcode = false) :
+    i.localOk ns nsets cs = true := by
+  have h : i.opcode ≠ opMulti ∧ i.opcode ∉ setOps ∧ i.opcode ≠ opRef ∧ i.opcode ≠ opTestref ∧
+      i.opcode ≠ opCapturemark := by
+    simp only [specialOps, setOps, List.contains_eq_mem, List.mem_append, List.mem_cons, List.not_mem_nil, or_false,
+      decide_eq_false_iff_not, not_or] at hs ⊢
+    simp only [opMulti, opSet, opSetrep, opSetloop, opSetlazy, opSetloopatomic, opRef, opTestref, opCapturemark] at hs ⊢
+    omega
+  obtain ⟨h1, h2, h3, h4, h5⟩ := h
+  simp [Instr.localOk, ha, h1, h2, h3, h4, h5]
+
+
+syntax "const_fin" : tactic
+macro_rules | `(tactic| const_fin) => `(tactic|
+  ((repeat' apply And.intro) <;> first | decide | (apply Or.inl; decide)))
+
+theorem internKey_lt (key : List Nat → List Nat) (tbl : List (List Nat)) (x : List Nat) :
+    (internKey key tbl x).1 < (internKey key tbl x).2.length := by
+  simp only [internKey]
+  split
+  · assumption
+  · rename_i h
+    have := List.idxOf_le_length (a := key x) (l := tbl.map key)
+    simp only [List.length_map] at this
+    simp only [List.length_append, List.length_cons, List.length_nil]
+    omega
+
+theorem internKey_len_le (key : List Nat → List Nat) (tbl : List (List Nat)) (x : List Nat) :
+    tbl.length ≤ (internKey key tbl x).2.length := by
+  simp only [internKey]
+  split <;> simp
+
+theorem plain_i0 {ns nsets cs op : Nat} (h : Code.sizeOf? (op % (flagMask + 1)) = some 1 ∧ specialOps.contains (op % (flagMask + 1)) = false) :
+    (i0 op).localOk ns nsets cs = true :=
+  localOk_plain (by simp [Instr.arityOk, Instr.opcode, h.1]) (by simpa [Instr.opcode] using h.2)
+theorem plain_i1 {ns nsets cs op : Nat} {x : Int} (h : Code.sizeOf? (op % (flagMask + 1)) = some 2 ∧ specialOps.contains (op % (flagMask + 1)) = false) :
+    (i1 op x).localOk ns nsets cs = true :=
+  localOk_plain (by simp [Instr.arityOk, Instr.opcode, h.1]) (by simpa [Instr.opcode] using h.2)
+theorem plain_i2 {ns nsets cs op : Nat} {x y : Int} (h : Code.sizeOf? (op % (flagMask + 1)) = some 3 ∧ specialOps.contains (op % (flagMask + 1)) = false) :
+    (i2 op x y).localOk ns nsets cs = true :=
+  localOk_plain (by simp [Instr.arityOk, Instr.opcode, h.1]) (by simpa [Instr.opcode] using h.2)
+
+theorem bare_plain : ∀ t ∈ bareTypes, Code.sizeOf? (t % (flagMask + 1)) = some 1 ∧ specialOps.contains (t % (flagMask + 1)) = false := by decide
+theorem char_plain : ∀ t ∈ charTypes, ∀ rtl ci, Code.sizeOf? ((t ||| bits rtl ci) % (flagMask + 1)) = some 2 ∧
+    specialOps.contains ((t ||| bits rtl ci) % (flagMask + 1)) = false := by decide
+theorem charloop_plain : ∀ t ∈ charloopTypes ++ [opOnerep, opNotonerep], ∀ rtl ci, Code.sizeOf? ((t ||| bits rtl ci) % (flagMask + 1)) = some 3 ∧
+    specialOps.contains ((t ||| bits rtl ci) % (flagMask + 1)) = false := by decide
+theorem setloop_op : ∀ t ∈ setloopTypes ++ [opSetrep], ∀ rtl ci, Code.sizeOf? ((t ||| bits rtl ci) % (flagMask + 1)) = some 3 ∧
+    setOps.contains ((t ||| bits rtl ci) % (flagMask + 1)) = true ∧ (t ||| bits rtl ci) % (flagMask + 1) ≠ opMulti ∧
+    (t ||| bits rtl ci) % (flagMask + 1) ≠ opRef ∧ (t ||| bits rtl ci) % (flagMask + 1) ≠ opTestref ∧
+    (t ||| bits rtl ci) % (flagMask + 1) ≠ opCapturemark := by decide
+
+theorem localOk_setloop {ns nsets cs t : Nat} {rtl ci : Bool} {k : Nat} {y : Int} (ht : t ∈ setloopTypes ++ [opSetrep])
+    (hk : k < nsets) : (i2 (t ||| bits rtl ci) (k : Int) y).localOk ns nsets cs = true := by
+  obtain ⟨h1, h2, h3, h4, h5, h6⟩ := setloop_op t ht rtl ci
+  simp only [List.contains_eq_mem, decide_eq_true_eq] at h2
+  simp [Instr.localOk, Instr.arityOk, Instr.opcode, h1, h2, h3, h4, h5, h6, inRange, hk]
+
+theorem localOk_set {ns nsets cs : Nat} {rtl ci : Bool} {k : Nat} (hk : k < nsets) :
+    (i1 (opSet ||| bits rtl ci) (k : Int)).localOk ns nsets cs = true := by
+  have h : (opSet ||| bits rtl ci) % (flagMask + 1) = opSet := opcode_bits opSet (by decide) rtl ci
+  simp [Instr.localOk, Instr.arityOk, Instr.opcode, h, inRange, hk]
+  const_fin
+
+theorem localOk_multi {ns nsets cs : Nat} {rtl ci : Bool} {k : Nat} (hk : k < ns) :
+    (i1 (opMulti ||| bits rtl ci) (k : Int)).localOk ns nsets cs = true := by
+  have h : (opMulti ||| bits rtl ci) % (flagMask + 1) = opMulti := opcode_bits opMulti (by decide) rtl ci
+  simp [Instr.localOk, Instr.arityOk, Instr.opcode, h, inRange, hk]
+  const_fin
+
+theorem localOk_ref {ns nsets cs : Nat} {rtl ci : Bool} {g : Int} (hg : 0 ≤ g ∧ g < cs) :
+    (i1 (opRef ||| bits rtl ci) g).localOk ns nsets cs = true := by
+  have h : (opRef ||| bits rtl ci) % (flagMask + 1) = opRef := opcode_bits opRef (by decide) rtl ci
+  simp [Instr.localOk, Instr.arityOk, Instr.opcode, h, inRange, hg]
+  const_fin
+
+theorem localOk_testref {ns nsets cs : Nat} {g : Int} (hg : 0 ≤ g ∧ g < cs) :
+    (i1 opTestref g).localOk ns nsets cs = true := by
+  simp [Instr.localOk, Instr.arityOk, Instr.opcode, inRange, hg]
+  const_fin
+
+theorem localOk_capturemark {ns nsets cs : Nat} {x y : Int}
+    (h : if y = -1 then (0 ≤ x ∧ x < cs) else ((x = -1 ∨ (0 ≤ x ∧ x < cs)) ∧ (0 ≤ y ∧ y < cs))) :
+    (i2 opCapturemark x y).localOk ns nsets cs = true := by
+  simp only [Instr.localOk, Instr.arityOk, Instr.opcode, i2_op, i2_args]
+  split at h
+  · rename_i hy; subst hy
+    simp [inRange, h]; const_fin
+  · rename_i hy
+    simp [inRange, h, hy]; const_fin
+
+
+theorem AllLocal_mono' {ns ns' nsets nsets' cs : Nat} {c : Code} (h : AllLocal ns nsets cs c) (h1 : ns ≤ ns')
+    (h2 : nsets ≤ nsets') : AllLocal ns' nsets' cs c := AllLocal_mono h1 h2 h
+
+theorem slotOk_iff {cfg : Cfg} {cs : Nat} {g : Int} : slotOk cfg cs g = true ↔ 0 ≤ mapCapnum cfg g ∧ mapCapnum cfg g < cs := by
+  simp [slotOk]
+
+theorem mapCapnum_neg_one (cfg : Cfg) : mapCapnum cfg (-1) = -1 := by simp [mapCapnum]
+
+theorem mapCapnum_eq_neg_one {cfg : Cfg} {cs : Nat} {g : Int} (h : slotOk cfg cs g = true) : mapCapnum cfg g ≠ -1 := by
+  have := slotOk_iff.1 h; omega
+
+/-- the result of emitting a fragment: its instructions are locally well-formed for the tables it returns, and the
+    tables only grow -/
+def LocalRes (cs : Nat) (tb : Tables) (r : Code × Tables) : Prop :=
+  AllLocal r.2.strings.length r.2.sets.length cs r.1 ∧ tb.strings.length ≤ r.2.strings.length ∧
+    tb.sets.length ≤ r.2.sets.length
+
+syntax "loc_all" : tactic
+macro_rules | `(tactic| loc_all) => `(tactic|
+  (simp only [LocalRes, AllLocal_append, AllLocal_cons, AllLocal_nil, and_true] at *
+   (repeat' apply And.intro) <;>
+   first
+   | trivial
+   | assumption
+   | rfl
+   | omega
+   | exact AllLocal_mono' (by assumption) (by omega) (by omega)
+   | exact AllLocal_nil _ _ _))
+
+theorem capture_operands {cfg : Cfg} {cs : Nat} {m n : Int}
+    (h : (if n == -1 then slotOk cfg cs m else (m == -1 || slotOk cfg cs m) && slotOk cfg cs n) = true) :
+    if mapCapnum cfg n = -1 then (0 ≤ mapCapnum cfg m ∧ mapCapnum cfg m < cs)
+    else ((mapCapnum cfg m = -1 ∨ (0 ≤ mapCapnum cfg m ∧ mapCapnum cfg m < cs)) ∧ (0 ≤ mapCapnum cfg n ∧ mapCapnum cfg n < cs)) := by
+  by_cases hn : n = -1
+  · subst hn
+    simp only [beq_self_eq_true, if_true] at h
+    simp [mapCapnum_neg_one, slotOk_iff.1 h]
+  · have hn' : (n == -1) = false := by simpa using hn
+    simp only [hn', Bool.false_eq_true, if_false, Bool.and_eq_true, Bool.or_eq_true, beq_iff_eq] at h
+    have h2 := slotOk_iff.1 h.2
+    have : mapCapnum cfg n ≠ -1 := by omega
+    simp only [this, if_false]
+    refine ⟨?_, h2⟩
+    rcases h.1 with h1 | h1
+    · subst h1; left; exact mapCapnum_neg_one cfg
+    · right; exact slotOk_iff.1 h1
+
+mutual
+theorem emitNode_local (cfg : Cfg) (cs : Nat) : ∀ (n : GoNode) (a : Nat) (tb : Tables), n.ok = true →
+    capsOk cfg cs n = true → LocalRes cs tb (emitNode cfg a tb n)
+  | .empty, a, tb, _, _ => by simp only [emitNode]; loc_all
+  | .bare t, a, tb, h, _ => by
+    simp only [emitNode]
+    have := plain_i0 (ns := tb.strings.length) (nsets := tb.sets.length) (cs := cs)
+      (bare_plain t (by simpa [GoNode.ok] using h))
+    loc_all
+  | .char t rtl ci ch, a, tb, h, _ => by
+    simp only [emitNode]
+    have := plain_i1 (ns := tb.strings.length) (nsets := tb.sets.length) (cs := cs) (x := ch)
+      (char_plain t (by simpa [GoNode.ok] using h) rtl ci)
+    loc_all
+  | .set rtl ci s, a, tb, _, _ => by
+    simp only [emitNode]
+    have h1 := internKey_lt setKey tb.sets s
+    have h2 := internKey_len_le setKey tb.sets s
+    have := localOk_set (ns := tb.strings.length) (cs := cs) (rtl := rtl) (ci := ci) h1
+    loc_all
+  | .multi rtl ci s, a, tb, _, _ => by
+    simp only [emitNode]
+    have h1 := internKey_lt strKey tb.strings s
+    have h2 := internKey_len_le strKey tb.strings s
+    have := localOk_multi (nsets := tb.sets.length) (cs := cs) (rtl := rtl) (ci := ci) h1
+    loc_all
+  | .ref rtl ci m, a, tb, _, hc => by
+    simp only [emitNode]
+    have := localOk_ref (ns := tb.strings.length) (nsets := tb.sets.length) (rtl := rtl) (ci := ci)
+      (slotOk_iff.1 (by simpa [capsOk] using hc))
+    loc_all
+  | .charloop t rtl ci ch m n, a, tb, h, _ => by
+    simp only [emitNode]
+    have ht : t ∈ charloopTypes ++ [opOnerep, opNotonerep] :=
+      List.mem_append_left _ (by simpa [GoNode.ok] using h)
+    have h1 := plain_i2 (ns := tb.strings.length) (nsets := tb.sets.length) (cs := cs) (x := ch) (y := repArg m n)
+      (charloop_plain t ht rtl ci)
+    have h2 : (i2 ((if isOneFamily t = true then opOnerep else opNotonerep) ||| bits rtl ci) ch m).localOk
+        tb.strings.length tb.sets.length cs = true := by
+      split
+      · exact plain_i2 (charloop_plain opOnerep (by decide) rtl ci)
+      · exact plain_i2 (charloop_plain opNotonerep (by decide) rtl ci)
+    by_cases hm : m > 0 <;> by_cases hn : n > m <;> simp only [hm, hn, if_true, if_false, List.append_nil, List.nil_append] <;>
+      loc_all <;> assumption
+  | .setloop t rtl ci s m n, a, tb, h, _ => by
+    simp only [emitNode]
+    have ht : t ∈ setloopTypes ++ [opSetrep] := List.mem_append_left _ (by simpa [GoNode.ok] using h)
+    have hk := internKey_lt setKey tb.sets s
+    have hl := internKey_len_le setKey tb.sets s
+    have h1 := localOk_setloop (ns := tb.strings.length) (cs := cs) (rtl := rtl) (ci := ci) (y := repArg m n) ht hk
+    have h2 := localOk_setloop (ns := tb.strings.length) (cs := cs) (rtl := rtl) (ci := ci) (y := m)
+      (t := opSetrep) (by decide) hk
+    by_cases hm : m > 0 <;> by_cases hn : n > m <;>
+      simp only [hm, hn, if_true, if_false, List.append_nil, List.nil_append, decide_true, decide_false, Bool.or_self,
+        Bool.or_true, Bool.true_or, Bool.or_false, Bool.false_eq_true] <;>
+      loc_all <;> assumption
+  | .concat cs', a, tb, h, hc => by
+    simp only [emitNode]
+    exact emitList_local cfg cs cs' a tb (by simp [GoNode.ok] at h; exact h.2) (by simpa [capsOk] using hc)
+  | .alt cs', a, tb, h, hc => by
+    simp only [emitNode]
+    exact emitAlt_local cfg cs cs' a _ tb (by simp [GoNode.ok] at h; exact h.2) (by simpa [capsOk] using hc)
+  | .loop lzy m n c, a, tb, h, hc => by
+    have ih1 := emitNode_local cfg cs c (a + loopHeadLen m n) tb (by simpa [GoNode.ok] using h) (by simpa [capsOk] using hc)
+    simp only [emitNode]
+    generalize emitNode cfg (a + loopHeadLen m n) tb c = r1 at *
+    obtain ⟨l1, s1, t1⟩ := ih1
+    cases lzy <;> by_cases hcn : counted m n = true <;> by_cases hm : (m == 0) = true <;>
+      simp only [hcn, hm, if_true, if_false, Bool.false_eq_true, Nat.add_zero, List.append_nil] <;> loc_all
+  | .capture m n c, a, tb, h, hc => by
+    have hc' : (if n == -1 then slotOk cfg cs m else (m == -1 || slotOk cfg cs m) && slotOk cfg cs n) = true ∧
+        capsOk cfg cs c = true := by simpa [capsOk] using hc
+    simp only [emitNode]
+    split
+    · have ih1 := emitNode_local cfg cs c (a + 1) tb (by simpa [GoNode.ok] using h) hc'.2
+      generalize emitNode cfg (a + 1) tb c = r1 at *
+      obtain ⟨l1, s1, t1⟩ := ih1
+      have := localOk_capturemark (ns := r1.2.strings.length) (nsets := r1.2.sets.length) (capture_operands hc'.1)
+      loc_all
+    · exact emitNode_local cfg cs c a tb (by simpa [GoNode.ok] using h) hc'.2
+  | .group c, a, tb, h, hc => by
+    simp only [emitNode]
+    exact emitNode_local cfg cs c a tb (by simpa [GoNode.ok] using h) (by simpa [capsOk] using hc)
+  | .poslook c, a, tb, h, hc => by
+    have ih1 := emitNode_local cfg cs c (a + 2) tb (by simpa [GoNode.ok] using h) (by simpa [capsOk] using hc)
+    simp only [emitNode]
+    generalize emitNode cfg (a + 2) tb c = r1 at *
+    obtain ⟨l1, s1, t1⟩ := ih1
+    loc_all
+  | .neglook c, a, tb, h, hc => by
+    have ih1 := emitNode_local cfg cs c (a + 3) tb (by simpa [GoNode.ok] using h) (by simpa [capsOk] using hc)
+    simp only [emitNode]
+    generalize emitNode cfg (a + 3) tb c = r1 at *
+    obtain ⟨l1, s1, t1⟩ := ih1
+    loc_all
+  | .atomic c, a, tb, h, hc => by
+    have ih1 := emitNode_local cfg cs c (a + 1) tb (by simpa [GoNode.ok] using h) (by simpa [capsOk] using hc)
+    simp only [emitNode]
+    generalize emitNode cfg (a + 1) tb c = r1 at *
+    obtain ⟨l1, s1, t1⟩ := ih1
+    loc_all
+  | .backrefcond1 m y, a, tb, h, hc => by
+    have hc' : slotOk cfg cs m = true ∧ capsOk cfg cs y = true := by simpa [capsOk] using hc
+    have ih1 := emitNode_local cfg cs y (a + 6) tb (by simpa [GoNode.ok] using h) hc'.2
+    simp only [emitNode]
+    generalize emitNode cfg (a + 6) tb y = r1 at *
+    obtain ⟨l1, s1, t1⟩ := ih1
+    have := localOk_testref (ns := r1.2.strings.length) (nsets := r1.2.sets.length) (slotOk_iff.1 hc'.1)
+    loc_all
+  | .backrefcond2 m y n, a, tb, h, hc => by
+    have hok : y.ok = true ∧ n.ok = true := by simpa [GoNode.ok] using h
+    have hc' : (slotOk cfg cs m = true ∧ capsOk cfg cs y = true) ∧ capsOk cfg cs n = true := by simpa [capsOk] using hc
+    have ih1 := emitNode_local cfg cs y (a + 6) tb hok.1 hc'.1.2
+    simp only [emitNode]
+    generalize emitNode cfg (a + 6) tb y = r1 at *
+    obtain ⟨l1, s1, t1⟩ := ih1
+    have ih2 := emitNode_local cfg cs n (a + 6 + size cfg y + 3) r1.2 hok.2 hc'.2
+    generalize emitNode cfg (a + 6 + size cfg y + 3) r1.2 n = r2 at *
+    obtain ⟨l2, s2, t2⟩ := ih2
+    have := localOk_testref (ns := r2.2.strings.length) (nsets := r2.2.sets.length) (slotOk_iff.1 hc'.1.1)
+    loc_all
+  | .exprcond2 c y, a, tb, h, hc => by
+    have hok : c.ok = true ∧ y.ok = true := by simpa [GoNode.ok] using h
+    have hc' : capsOk cfg cs c = true ∧ capsOk cfg cs y = true := by simpa [capsOk] using hc
+    have ih1 := emitNode_local cfg cs c (a + 4) tb hok.1 hc'.1
+    simp only [emitNode]
+    generalize emitNode cfg (a + 4) tb c = r1 at *
+    obtain ⟨l1, s1, t1⟩ := ih1
+    have ih2 := emitNode_local cfg cs y (a + 4 + size cfg c + 2) r1.2 hok.2 hc'.2
+    generalize emitNode cfg (a + 4 + size cfg c + 2) r1.2 y = r2 at *
+    obtain ⟨l2, s2, t2⟩ := ih2
+    loc_all
+  | .exprcond3 c y n, a, tb, h, hc => by
+    have hok : (c.ok = true ∧ y.ok = true) ∧ n.ok = true := by simpa [GoNode.ok] using h
+    have hc' : (capsOk cfg cs c = true ∧ capsOk cfg cs y = true) ∧ capsOk cfg cs n = true := by simpa [capsOk] using hc
+    have ih1 := emitNode_local cfg cs c (a + 4) tb hok.1.1 hc'.1.1
+    simp only [emitNode]
+    generalize emitNode cfg (a + 4) tb c = r1 at *
+    obtain ⟨l1, s1, t1⟩ := ih1
+    have ih2 := emitNode_local cfg cs y (a + 4 + size cfg c + 2) r1.2 hok.1.2 hc'.1.2
+    generalize emitNode cfg (a + 4 + size cfg c + 2) r1.2 y = r2 at *
+    obtain ⟨l2, s2, t2⟩ := ih2
+    have ih3 := emitNode_local cfg cs n (a + 4 + size cfg c + 2 + size cfg y + 4) r2.2 hok.2 hc'.2
+    generalize emitNode cfg (a + 4 + size cfg c + 2 + size cfg y + 4) r2.2 n = r3 at *
+    obtain ⟨l3, s3, t3⟩ := ih3
+    loc_all
+  | .other t, a, tb, h, _ => by simp [GoNode.ok] at h
+theorem emitList_local (cfg : Cfg) (cs : Nat) : ∀ (l : List GoNode) (a : Nat) (tb : Tables), okList l = true →
+    capsOkList cfg cs l = true → LocalRes cs tb (emitList cfg a tb l)
+  | [], a, tb, _, _ => by simp only [emitList]; loc_all
+  | c :: l, a, tb, h, hc => by
+    have hok : c.ok = true ∧ okList l = true := by simpa [okList] using h
+    have hc' : capsOk cfg cs c = true ∧ capsOkList cfg cs l = true := by simpa [capsOkList] using hc
+    have ih1 := emitNode_local cfg cs c a tb hok.1 hc'.1
+    simp only [emitList]
+    generalize emitNode cfg a tb c = r1 at *
+    obtain ⟨l1, s1, t1⟩ := ih1
+    have ih2 := emitList_local cfg cs l (a + size cfg c) r1.2 hok.2 hc'.2
+    generalize emitList cfg (a + size cfg c) r1.2 l = r2 at *
+    obtain ⟨l2, s2, t2⟩ := ih2
+    loc_all
+theorem emitAlt_local (cfg : Cfg) (cs : Nat) : ∀ (l : List GoNode) (a fin : Nat) (tb : Tables), okList l = true →
+    capsOkList cfg cs l = true → LocalRes cs tb (emitAlt cfg a fin tb l)
+  | [], a, fin, tb, _, _ => by simp only [emitAlt]; loc_all
+  | c :: l, a, fin, tb, h, hc => by
+    have hok : c.ok = true ∧ okList l = true := by simpa [okList] using h
+    have hc' : capsOk cfg cs c = true ∧ capsOkList cfg cs l = true := by simpa [capsOkList] using hc
+    simp only [emitAlt]
+    split
+    · exact emitNode_local cfg cs c a tb hok.1 hc'.1
+    · have ih1 := emitNode_local cfg cs c (a + 2) tb hok.1 hc'.1
+      generalize emitNode cfg (a + 2) tb c = r1 at *
+      obtain ⟨l1, s1, t1⟩ := ih1
+      have ih2 := emitAlt_local cfg cs l (a + 2 + size cfg c + 2) fin r1.2 hok.2 hc'.2
+      generalize emitAlt cfg (a + 2 + size cfg c + 2) fin r1.2 l = r2 at *
+      obtain ⟨l2, s2, t2⟩ := ih2
+      loc_all
+end
+
+
 end RegexVerif.Writer
